@@ -117,33 +117,36 @@ example : (denote (·.1) (⟨(true, { element := [67] }),
         (.side .dot (false, { element := [67] }) .done
           (.next (.dir true) (false, { element := [78] }) .done))⟩ : Chain A)).bonds = [(1, 0, 2), (3, 0, 1)] := rfl
 
-/-- The same with **ring closures**: every atom may be followed by ring bonds (`bond? digit | bond? %nn`). Whenever the
-    spec assigns the tree a graph (`denoteR = some g`: the symbols written on the two ends of each ring bond agree, no
-    ring bond from an atom to itself, no ring left open), `parser` (default `strong_cycle = False`) accepts the printed
-    tokens and returns exactly `g`: atoms, types, and all bonds — chain and ring bonds — in writing order of their
-    later end, ring-bond orders resolved as the spec says (written order on either end, aromatic between two aromatic
-    atoms when nothing or only a direction mark is written). -/
-theorem accept_sound_rings (rbs : A → List RingBond) (c : Chain A) (g : Graph A)
-    (hd : denoteR (·.1) rbs c = some g) :
-    ∃ st, parse false (toToks (printR rbs c)) = .ok st ∧
-      st.atoms = g.atoms.map strip ∧ st.types = g.atoms.map tyOf ∧ st.bonds = g.bonds := parse_printR rbs c g hd
+/-- The same with **ring closures**: every atom of the tree carries the ring bonds written after it
+    (`bond? digit | bond? %nn`; payload `B = atom × ring bonds`). Whenever the spec assigns the tree a graph
+    (`denoteR = some g`: the symbols written on the two ends of each ring bond agree, no ring bond from an atom to
+    itself, no ring left open), `parser` (default `strong_cycle = False`) accepts the printed tokens and returns exactly
+    `g`: atoms, types, and all bonds — chain and ring bonds — in writing order of their later end, ring-bond orders
+    resolved as the spec says (written order on either end, aromatic between two aromatic atoms when nothing or only a
+    direction mark is written). -/
+theorem accept_sound_rings (c : Chain B) (g : Graph B) (hd : denoteR aromB (·.2) c = some g) :
+    ∃ st, parse false (toToksB (printR (·.2) c)) = .ok st ∧
+      st.atoms = g.atoms.map (fun b => strip b.1) ∧ st.types = g.atoms.map (fun b => tyOf b.1) ∧
+      st.bonds = g.bonds := parse_printR c g hd
 
-/-- non-trivial instances of the hypothesis: `c1ccc(=O)cc1`-like ring with a branch; ring bond symbol on one end only
-    (`C=1CC1`); and a contradiction the spec refuses (`C=1CC-1`) -/
-example : (denoteR (·.1) (fun a => if a.2.mapping == some 1 then [⟨.none, 1⟩] else [])
-    (⟨(true, { element := [67], mapping := some 1 }),
-      .next .implicit (true, { element := [67] }) (.next .implicit (true, { element := [67] })
-        (.side (.explicit 2) (false, { element := [79] }) .done
-          (.next .implicit (true, { element := [67], mapping := some 1 }) .done)))⟩ : Chain A)).map (·.bonds) =
-    some [(1, 0, 4), (2, 1, 4), (3, 2, 2), (4, 2, 4), (4, 0, 4)] := rfl
-example : (denoteR (·.1) (fun a => if a.2.mapping == some 1 then [⟨.order 2, 1⟩] else if a.2.mapping == some 2 then [⟨.none, 1⟩] else [])
-    (⟨(false, { element := [67], mapping := some 1 }),
-      .next .implicit (false, { element := [67] }) (.next .implicit (false, { element := [67], mapping := some 2 }) .done)⟩ :
-      Chain A)).map (·.bonds) = some [(1, 0, 1), (2, 1, 1), (2, 0, 2)] := rfl
-example : (denoteR (·.1) (fun a => if a.2.mapping == some 1 then [⟨.order 2, 1⟩] else if a.2.mapping == some 2 then [⟨.order 1, 1⟩] else [])
-    (⟨(false, { element := [67], mapping := some 1 }),
-      .next .implicit (false, { element := [67] }) (.next .implicit (false, { element := [67], mapping := some 2 }) .done)⟩ :
-      Chain A)).isNone = true := rfl
+/-- non-trivial instances of the hypothesis: `c1cc(=O)ccc1` (aromatic ring with a branch), `C=1CC1` (ring-bond symbol
+    on one end only), and a contradiction the spec refuses (`C=1CC-1`) -/
+example : (denoteR aromB (·.2)
+    (⟨((true, { element := [67] }), [⟨.none, 1⟩]),
+      .next .implicit ((true, { element := [67] }), []) (.next .implicit ((true, { element := [67] }), [])
+        (.side (.explicit 2) ((false, { element := [79] }), []) .done
+          (.next .implicit ((true, { element := [67] }), []) (.next .implicit ((true, { element := [67] }), [])
+            (.next .implicit ((true, { element := [67] }), [⟨.none, 1⟩]) .done)))))⟩ : Chain B)).map (·.bonds) =
+    some [(1, 0, 4), (2, 1, 4), (3, 2, 2), (4, 2, 4), (5, 4, 4), (6, 5, 4), (6, 0, 4)] := rfl
+example : (denoteR aromB (·.2)
+    (⟨((false, { element := [67] }), [⟨.order 2, 1⟩]),
+      .next .implicit ((false, { element := [67] }), [])
+        (.next .implicit ((false, { element := [67] }), [⟨.none, 1⟩]) .done)⟩ : Chain B)).map (·.bonds) =
+    some [(1, 0, 1), (2, 1, 1), (2, 0, 2)] := rfl
+example : (denoteR aromB (·.2)
+    (⟨((false, { element := [67] }), [⟨.order 2, 1⟩]),
+      .next .implicit ((false, { element := [67] }), [])
+        (.next .implicit ((false, { element := [67] }), [⟨.order 1, 1⟩]) .done)⟩ : Chain B)).isNone = true := rfl
 
 /-- Full statement of the accept/reject clause on the token level (no ring-closure tokens): the parser accepts a
     token sequence **iff** it is the printing of a syntax tree (and then builds its denotation). False as it stands:
